@@ -5,7 +5,7 @@
    a spurious "child stopped" error) is the wrapper transition system of C05 instantiated with
    cache's parameters; [C04_need_eq_sent] is the fact that lets cache use it: Output() needs a
    child line exactly for the records whose line Input() forwarded. *)
-From PP Require Import Base.Lines Gen.Src_wrappers Wrap.CacheDefs Wrap.CacheProofs Wrap.WrapDefs Wrap.WrapProofs.
+From PP Require Import Base.Lines Gen.Src_wrappers Wrap.CacheDefs Wrap.CacheProofs Wrap.WrapDefs Wrap.WrapProofs Wrap.WrapPairing.
 
 (* for ALL inputs and key assignments: line i of the output is the child's answer to the first
    input line with the same key (one line per input line, in input order) *)
@@ -54,6 +54,23 @@ Proof.
   - exact (wrapper_no_error pr ilen alen Hi Ha He Hci Hco eq_refl recs s Hr).
 Qed.
 Print Assumptions C04_handoff_never_stuck_no_error.
+
+(* ... and under every interleaving the queue entries reach Output() in input order and entry i is served
+   with exactly the child's answers to the lines Input() forwarded for it (here: its own line iff it was a
+   first occurrence): the line counts per record are [map snd (feeder ls [])] by C04_need_eq_sent *)
+Theorem C04_entries_served_in_order_with_their_own_answers :
+  forall cin cout echo kpol ilen alen (ls : list (nat * line)) s,
+    let recs := map (fun b : bool => if b then 1 else 0) (map snd (feeder ls [])) in
+    let pr := mkP cache_order cache_poison_first cache_final_peek cin cout echo kpol in
+    reachable (wstep pr ilen alen) (w_init recs) s ->
+    rev (w_emitted s) = pairs 0 (firstn (length (w_emitted s)) recs) /\
+    (w_kpc s = KDone -> rev (w_emitted s) = pairs 0 recs).
+Proof.
+  intros cin cout echo kpol ilen alen ls s recs pr Hr. split.
+  - exact (emitted_prefix pr ilen alen recs s Hr).
+  - exact (emitted_complete pr ilen alen recs s Hr).
+Qed.
+Print Assumptions C04_entries_served_in_order_with_their_own_answers.
 
 (* ---- bytes: the full statement "exactly the output of running the child directly" ---- *)
 (* in_cr / out_cr: does the reader strip a carriage return in front of the newline (input lines /
